@@ -22,6 +22,9 @@ type tgType struct {
 
 var tgPkgs = []string{"other", "models", "ctl"}
 
+// a package whose import path ends in a one-letter segment ("vproj/v"); same import rank as "other"
+const tgTinyPkg = "v"
+
 var tgPrims = []string{"string", "int", "int64", "uint", "bool", "float64", "uint8", "int32", "float32", "time.Time", "[]byte", "any", "uint64", "int8"}
 
 func tgQual(from string, t tgType) string {
@@ -246,6 +249,7 @@ func genTypesProject(r *rng.R) (pProject, []string) {
 			name = g.types[i-1].Name // the same name in two packages
 			tags = append(tags, "same-name-two-packages")
 		}
+		tiny := rank == 0 && r.Chance(1, 3)
 		var t tgType
 		switch k := r.Intn(8); {
 		case k < 4:
@@ -257,6 +261,9 @@ func genTypesProject(r *rng.R) (pProject, []string) {
 			t = g.newEnum(rank, name)
 		default:
 			t = g.newAlias(rank, name)
+		}
+		if tiny && t.Name[0] < 'a' && (t.Kind == "enum" || (t.Kind == "alias" && strings.ToLower(t.Base[:1]) == t.Base[:1] && !strings.Contains(t.Base, "."))) {
+			t.Pkg = tgTinyPkg // leaf declarations only: nothing in them names another package
 		}
 		g.types = append(g.types, t)
 	}
